@@ -10,13 +10,15 @@ MANIFEST = dict(
               "theorems; tied to the code by a two-phase differential run through the public diagnostic request",
     text=("Theorems over Gallina models (on the dumped syntax tree) of FunctionReturnTypeChecker in the v1 AstWalker and of "
           "UnpurgedVarByteArrayChecker, NamingConventionChecker, InheritedChecker in the v2 pre-order annotated walker with its "
-          "context: for ALL trees satisfying WF16 (nine named clauses) the report is a permutation of lints_spec = one diagnostic "
+          "context: for ALL trees satisfying WF16 (seven named clauses) the report is a permutation of lints_spec = one diagnostic "
           "per declaration satisfying R_ret / R_inh / R_purge / R_name (each once, nothing else); removing or adding a top-level "
           "declaration changes the report by a list that depends on that declaration's subtree alone, permuting the top-level "
           "declarations permutes the report, any number of repeated requests return the same list; with the purge map keyed by "
-          "the upper-cased name the CaseConsistentPurge clause is not needed. Refutations (vm_compute on real parser dumps): "
-          "Purge(V) for var v; string literal 'pass'; inherited other.Init; duplicate local; Purge before declaration; "
-          "Purge('v'); a `pass` terminal in the declaration FOLLOWING a method (state leak, breaks permutation invariance). "
+          "the upper-cased name (the code since ef936ba) no CaseConsistentPurge clause is needed (the old exact-spelling key is kept "
+          "as key_exact with its refutation). Refutations of the unguarded statement (vm_compute on real parser dumps; open "
+          "findings D15-D19): inherited other.Init; duplicate local; Purge before declaration; Purge('v'); a `pass` terminal in the "
+          "declaration FOLLOWING a method (state leak, breaks permutation invariance). The two repaired defects (Purge(V) for var v, "
+          "string literal 'pass') are regression cases that run first. "
           "Tie: generated Gold programs (every trigger and near-miss toggled independently, method permutations, malformed "
           "stream) written to a temp workspace, ProjectManager::generate_document_diagnostic_report twice; the dumped tree is fed "
           "to the extracted model; observations (sorted class:severity:range:key lists + idempotence flag) must be equal; an "
@@ -47,8 +49,14 @@ ASSUMPTIONS = [
 CLASSES = ["RET", "INH", "PURGE", "NPROC", "NFUNC", "NFIELD", "NPARAM", "NLOCAL", "NTYPE", "NCONST"]
 
 # quirks of the implementation = classes of known findings (ids proposed to the coordinator)
-QUIRKS = ["purge-case-sensitive", "pass-string-literal", "inherited-any-receiver", "purge-dup-local",
-          "purge-before-decl", "purge-literal-arg", "inherited-leak-next-decl"]
+QUIRKS = ["inherited-any-receiver", "purge-dup-local", "purge-before-decl", "purge-literal-arg",
+          "inherited-leak-next-decl"]
+
+# repaired defects (/repo ef936ba, 44578d5): their minimal witnesses run first on every run and must satisfy the oracle
+REGRESSION = [
+    "class aCase\nproc P\n  var v : tVarByteArray\n  Purge(V)\nendproc\n",
+    "class aCase\nproc Init\n  foo('pass')\nendproc\n",
+]
 
 
 def cps(s):
@@ -217,11 +225,8 @@ def terminals_of_event(ev):
 
 
 def counts_as_pass(tok, quirks):
-    if is_ident(tok):
-        return tok.upper() == "PASS"
-    if tok.startswith("'") and "pass-string-literal" in quirks:
-        return tok[1:-1].upper() == "PASS"
-    return False
+    """`pass` is an identifier token spelled pass (any letter case, any position); a string literal is not"""
+    return is_ident(tok) and tok.upper() == "PASS"
 
 
 def decl_terminals(it):
@@ -292,7 +297,7 @@ def expected(text, quirks=frozenset()):
             decls = [(j, ev) for j, ev in enumerate(evs) if ev[0] == "var" and ev[4].upper() == "TVARBYTEARRAY"]
             for (j, ev) in decls:
                 vname = ev[2]
-                keyf = (lambda s: s) if "purge-case-sensitive" in quirks else (lambda s: s.upper())
+                keyf = lambda s: s.upper()           # names are case-insensitive
                 if "purge-dup-local" in quirks and any(keyf(e2[2]) == keyf(vname) and j2 > j for (j2, e2) in decls):
                     continue                 # replaced by a later declaration with the same key
                 purged = False
@@ -409,7 +414,7 @@ def inh_bodies(name):
         "nested-pass": ["while y", "  pass", "endwhile"],
         "filler-only": ["x = 1", "foo(x, 2)"],
         "pass-arg": ["foo(pass)"],
-        # near-misses the implementation is known / suspected to get wrong
+        # string literals are not `pass` (repaired by 44578d5)
         "lit-pass-arg": ["foo('pass')"],
         "lit-pass-assign": ["x = 'PASS'"],
         "lit-pass-sharp-s": ["foo('pa\u00df')"],          # Rust: "pa\u00df".to_uppercase() == "PASS"
@@ -433,7 +438,7 @@ def purge_variants(v, w):
         "Purge(x.v)": ["Purge(x.%s)" % v],
         "Purged(v)": ["Purged(%s)" % v],
         "nested": ["if x", "  while y", "    o.purge(%s)" % v, "  endwhile", "endif"],
-        "Purge(V)": ["Purge(%s)" % v.swapcase()],          # letter case differs (R1)
+        "Purge(V)": ["Purge(%s)" % v.swapcase()],          # letter case differs (repaired by ef936ba)
     }
 
 
@@ -502,12 +507,12 @@ def rand_method(rng, probes=False):
         body.append("var %s : %s" % (v, rng.choice(LOCAL_TYPES[:3] + LOCAL_TYPES)))
     stm = []
     ib = inh_bodies(name)
-    keys = list(ib)[:13] if not probes else list(ib)
+    keys = [k for k in ib if probes or k != "other-receiver"]
     for _ in range(rng.choice([0, 1, 1, 2])):
         stm += ib[rng.choice(keys)]
     for v in locs:
         pv = purge_variants(v, rng.choice(["w", "zz", "buf"]))
-        keys = list(pv)[:12] if not probes else list(pv)
+        keys = list(pv)
         if rng.random() < 0.7:
             stm += pv[rng.choice(keys)]
     if rng.random() < 0.4:
@@ -750,6 +755,24 @@ def permutation_check(ctx, pairs, known):
     return len(pairs)
 
 
+def regression_corpus(ctx):
+    """the witnesses of the repaired defects: implementation = model = the property's expectation"""
+    hb = diff.Engines.harness()
+    cs = [cps(t) for t in REGRESSION]
+    raws = [split(o) for o in core.run_lines(hb, "lints", cs, shards=1)]
+    mods = core.run_lines(diff.Engines.model(), "lints", [r[0] for r in raws], shards=1)
+    for c, (tree, obs), m in zip(cs, raws, mods):
+        out = canon(obs)
+        r = oracle(c, out)
+        if r is None and canon(m) != out:
+            r = "model and implementation disagree on a regression case"
+        if r:
+            path = core.write_replay(ctx.pid, ctx.seed, {"engine": "lints", "case": c, "case_readable": uncps(c), "observed": out,
+                                                          "model": canon(m), "expected": r,
+                                                          "note": "regression corpus: witness of a defect repaired in /repo"})
+            raise core.Violation(r, path, True)
+
+
 def replay_witnesses(ctx, known):
     """every listed open finding must still reproduce (the model follows the code)"""
     hb = diff.Engines.harness()
@@ -767,6 +790,8 @@ def replay_witnesses(ctx, known):
 
 def correspondence(ctx, broken_obligations=()):
     cases, pairs, hist = gen_programs(ctx)
+    cases = [cps(t) for t in REGRESSION] + cases
+    hist["regression"] = len(REGRESSION)
     known = make_known(ctx)
     meta = {
         "histogram": hist,
@@ -779,16 +804,35 @@ def correspondence(ctx, broken_obligations=()):
                  "declarations (also compared pairwise on the implementation's own answers); probes of the refuted classes; a "
                  "malformed stream (line/character damage). non-trivial = inside the oracle's grammar with at least one method"),
         "samples": [describe(cases[0]), describe(cases[len(cases) // 2])[:600], describe(cases[-1])[:400]],
-        "refuted_theorems": ["C16_R1_case_refuted", "C16_R2_pass_literal_refuted", "C16_R3_inherited_other_refuted",
-                             "C16_R4_duplicate_local_refuted", "C16_R4_purge_before_decl_refuted",
-                             "C16_R4_purge_literal_arg_refuted", "C16_R5_leak_refuted", "C16_local_refuted"],
+        "refuted_theorems": ["C16_R3_inherited_other_refuted", "C16_R4_duplicate_local_refuted",
+                             "C16_R4_purge_before_decl_refuted", "C16_R4_purge_literal_arg_refuted",
+                             "C16_R5_leak_refuted", "C16_local_refuted", "C16_old_R1_case_refuted (code before ef936ba)"],
+        "regression_corpus": REGRESSION,
     }
     try:
         with TmpWorkspace():
-            replay_witnesses(ctx, known)
-            cov = diff.differential(ctx, "lints", cases, split=split, canon=canon, oracle=oracle, known=known,
-                                    shrinker=shrinker, nontrivial=nontrivial, describe=describe)
+            # a stage that breaks without a failing input (a witness that no longer reproduces, a model/implementation
+            # disagreement the oracle accepts) is kept pending while the later stages search for a concrete one
+            pending = []
+            for stage in (lambda: regression_corpus(ctx), lambda: replay_witnesses(ctx, known)):
+                try:
+                    stage()
+                except core.Violation as v:
+                    if v.found_input:
+                        raise
+                    pending.append(v)
+            try:
+                cov = diff.differential(ctx, "lints", cases, split=split, canon=canon, oracle=oracle, known=known,
+                                        shrinker=shrinker, nontrivial=nontrivial, describe=describe)
+            except core.Violation as v:
+                if v.found_input:
+                    raise
+                pending.append(v)
+                cov = dict(getattr(v, "coverage", None) or {})
             cov["permutation_pairs_checked"] = permutation_check(ctx, pairs, known)
+            if pending:
+                pending[0].coverage = cov
+                raise pending[0]
     except core.Violation as v:
         c = dict(getattr(v, "coverage", None) or {})
         c.update(meta)
